@@ -317,6 +317,11 @@ def flow_fingerprint(fn, summ):
             if st[0] != 'a':
                 continue
             pl, rv = st[1], st[2]
+            if rv[0] == 'agg' and rv[1][0] == 'adt' and len(rv[1]) > 4 and len(rv[1][4] or []) >= 2 and len(rv[1][4]) == len(rv[2]):
+                # a struct / variant construction: which value goes into which field (the leaf *set* of the whole aggregate cannot
+                # tell `Range { begin, end }` from `Range { begin: end, end: begin }`)
+                rows['new %s::%s{%s}' % (g.strs[rv[1][1]].split('::')[-1], rv[1][2],
+                                         ' ; '.join('%s<-%s' % (fld, _fmt(leaves(fn, o_, 14))) for fld, o_ in zip(rv[1][4], rv[2])))] += 1
             tmp_op = None
             target = None
             if len(pl) > 1:
